@@ -12,7 +12,7 @@ LEVEL = "exploration"
 RULE = (
     "A generated module on disk places 5-11 functions at module level, as methods of classes and nested classes, as "
     "static methods, inside factory functions (one or two levels deep, with and without captured free variables), behind "
-    "functools.wraps decorators (module level and methods), and as a method sharing its name with a module-level function; a history (<= 10 quick / <= 16 thorough) of {activate a probe by name, activate by absolute "
+    "functools.wraps decorators (module level and methods), ptera's own @tooled decorator, and as a method sharing its name with a module-level function; a history (<= 10 quick / <= 16 thorough) of {activate a probe by name, activate by absolute "
     "reference, deactivate any active probe (nested or out of order), call a function, resolve a reference} runs against "
     "it.  At every 'resolve' (and after every step for the functions touched so far) the monitor requires "
     "select(refstring(fn) + ' > v').element.name is the function itself (the undecorated one for decorated functions) "
@@ -71,6 +71,11 @@ def gen_module(rnd, name, collide=None, salt=0):
         b, c = body(0, False)
         lines += ["@deco", "def dec0(x):"] + b + [""]
         descs.append({"call": "dec0({x})", "target": "dec0.__wrapped__", "by_name": "dec0", "k": c, "kind": "decorated"})
+    # decorated with ptera's own tooled: the tooled function is what the name and the reference denote
+    if rnd.random() < 0.5:
+        b, c = body(0, False)
+        lines += ["from ptera import tooled as _tooled", "@_tooled", "def pre0(x):"] + b + [""]
+        descs.append({"call": "pre0({x})", "target": "pre0", "by_name": "pre0", "k": c, "kind": "tooled-decorator"})
     # class with methods
     b, c = body(4, True)
     lines += ["class K:", "    def meth(self, x):"] + b
@@ -293,14 +298,18 @@ def twin_stream(spec, res):
         pa, _ = run_history(mods[0], descs, [["act_ref", 0], ["call", 0, 1], ["deact", 0]], res)
         pb, _ = run_history(mods[1], descs, [["resolve", 0], ["act_ref", 0], ["call", 0, 2], ["deact", 0]], res)
         case = {"twin": True, "src": src, "descs": descs, "ops": "probe /a/top0, then resolve and probe /b/top0"}
-        if pa:
-            res.violation(case, pa[:2])
-        elif pb:
-            txt = " ".join(str(p["problem"]) for p in pb)
-            if "resolved to" in txt or "instrument_count" in txt or "stream" in txt:
-                res.finding(MECH_TWIN, {"case": case, "problems": pb[:2]})
-            else:
-                res.violation(case, pb[:2])
+        # signature of the known mechanism: a reference resolves to (or a probe lands on) the
+        # same-named function of the twin file; with a @tooled function in the files this shows as soon
+        # as the second file is imported, i.e. already in the history on the first module
+        def twin_signature(p):
+            t = str(p["problem"])
+            return "resolved to" in t or "instrument_count" in t or "stream" in t
+
+        allp = pa + pb
+        if allp and all(twin_signature(p) for p in allp):
+            res.finding(MECH_TWIN, {"case": case, "problems": allp[:2]})
+        elif allp:
+            res.violation(case, [p for p in allp if not twin_signature(p)][:2])
 
 
 def run_shard(spec):
